@@ -29,6 +29,7 @@ type Obligation struct {
 	Result    *SolverResult
 	PathID    int
 	InputVals []modelInput
+	U         *Universe
 	Clause    Expr  // contract clause (ensures) for native evaluation in replays
 	Hint      *Term // replay hint: only used to pick a more realistic model, never for the verdict
 }
@@ -84,6 +85,7 @@ type Engine struct {
 	inc          *incSolver
 	modDir       string
 	globalNonNil map[*ssa.Global]bool
+	globalConsts map[*ssa.Global]*constGlobal
 }
 
 func NewEngine() *Engine {
@@ -96,6 +98,22 @@ func NewEngine() *Engine {
 		funcsByKey: map[string]*ssa.Function{}, specCache: map[string]bool{}, coverHits: map[string]bool{}, funcsTouched: map[string]bool{},
 	}
 	return e
+}
+
+// resetSymbolic gives every root function its own symbol universe so that the
+// queries of one root do not depend on which other roots ran before it.
+func (e *Engine) resetSymbolic() {
+	e.incClose()
+	e.u = NewUniverse()
+	currentUniverse = e.u
+	e.tm = NewTypeMap(e.u)
+	e.heapSorts, e.heapPtrLike, e.heapValKind, e.heapGoType = map[string]string{}, map[string]bool{}, map[string]string{}, map[string]types.Type{}
+	e.refCounter = 0
+	e.funcIDs, e.idFuncs = map[*ssa.Function]int{}, map[int]*ssa.Function{}
+	e.closureIDs, e.idClosures = map[*Closure]int{}, map[int]*Closure{}
+	e.globalRefs = map[*ssa.Global]Term{}
+	e.loopInfo, e.writeSets = map[*ssa.Function]*FuncLoops{}, map[*ssa.Function]*WriteSet{}
+	e.specCache = map[string]bool{}
 }
 
 func (e *Engine) funcID(f *ssa.Function) int {
@@ -336,10 +354,10 @@ func (s *State) addObligation(kind, name, tag string, pos token.Pos, goal Term, 
 	if goal.S == "true" {
 		// trivially discharged; still count it
 		s.eng.obligations = append(s.eng.obligations, &Obligation{Name: name, Kind: kind, Tag: tag, Root: s.eng.rootKey,
-			Pos: posString(s.eng.fset, pos), Goal: goal, Desc: desc, Result: &SolverResult{Status: "unsat", Solver: "trivial"}, PathID: s.id})
+			Pos: posString(s.eng.fset, pos), Goal: goal, Desc: desc, Result: &SolverResult{Status: "unsat", Solver: "trivial"}, PathID: s.id, U: s.eng.u})
 		return
 	}
 	o := &Obligation{Name: name, Kind: kind, Tag: tag, Root: s.eng.rootKey, Pos: posString(s.eng.fset, pos),
-		Assumes: s.assumes.slice(), Goal: goal, Desc: desc, PathID: s.id, Trace: append([]string(nil), s.trace...), InputVals: s.eng.rootInputs, Hint: s.eng.rootHint}
+		Assumes: s.assumes.slice(), Goal: goal, Desc: desc, PathID: s.id, Trace: append([]string(nil), s.trace...), InputVals: s.eng.rootInputs, Hint: s.eng.rootHint, U: s.eng.u}
 	s.eng.obligations = append(s.eng.obligations, o)
 }
